@@ -758,4 +758,88 @@ theorem allEnabled_flatten (f : Tree) (h : allEnabled f = true) : allEnabled f.f
   | call i x c n ihn => simp [allEnabled] at h; simp [Tree.flatten, allEnabled, h, ihn]
   | iter k n ihk ihn => simp [allEnabled] at h; simp [Tree.flatten, happ, h, ihk, ihn]
 
+/-! ## a syntactic condition that rules out the dropped-iterator behaviour -/
+
+theorem evalField_literal (ρ : Look) (f : Field) (h : isLiteral f = true) : evalField ρ f = some (rawText f) := by
+  induction f with
+  | nil => rfl
+  | cons p ps ih =>
+    cases p with
+    | text s => simp [isLiteral] at h; simp [evalField, Part.eval, rawText, ih h]
+    | str e => simp [isLiteral] at h
+    | bool e => simp [isLiteral] at h
+
+@[simp] theorem Events.or_iterDrop (a b : Events) : (a.or b).iterDrop = (a.iterDrop || b.iterDrop) := rfl
+
+theorem body_disabled (ctx : Ctx) (loc : Env) (b : Tmpl)
+    (hl : (match b with
+           | .agg h _ .nil => isLiteral h.enabled
+           | .task h _ _ .nil => isLiteral h.enabled
+           | .call h _ _ .nil => isLiteral h.enabled
+           | _ => false) = true)
+    (hr : rawEnabled b = false) : proc ctx loc b = Out.empty := by
+  cases b with
+  | nil => rfl
+  | iter r v b n => simp at hl
+  | agg h k n =>
+    cases n <;> simp at hl
+    simp only [rawEnabled] at hr
+    simp [proc, procHdr_disabled (evalField_literal _ _ hl) hr]
+  | task h x c n =>
+    cases n <;> simp at hl
+    simp only [rawEnabled] at hr
+    simp [proc, procHdr_disabled (evalField_literal _ _ hl) hr, leafOut]
+  | call h x c n =>
+    cases n <;> simp at hl
+    simp only [rawEnabled] at hr
+    simp [proc, procHdr_disabled (evalField_literal _ _ hl) hr, leafOut]
+
+theorem proc_no_iterDrop (t : Tmpl) : ∀ (ctx : Ctx) (loc : Env),
+    iterEnabledLiteral t = true → (proc ctx loc t).ev.iterDrop = false := by
+  induction t with
+  | nil => intros; rfl
+  | agg h kids nx ihk ihn =>
+    intro ctx loc hl
+    simp only [iterEnabledLiteral, Bool.and_eq_true] at hl
+    simp only [proc, Out.seq_ev, Events.or_iterDrop, ihn ctx loc hl.2, Bool.or_false]
+    cases procHdr ctx loc h [] with
+    | ok i c' ex =>
+      dsimp only
+      by_cases hf : (proc c' [] kids).f = .nil
+      · have : aggOut i (proc c' [] kids) = ⟨(proc c' [] kids).err, .nil, (proc c' [] kids).ev⟩ := by
+          unfold aggOut; rw [hf]
+        rw [this]; exact ihk c' [] hl.1
+      · rw [aggOut_of_ne i _ hf]; simp [ihk c' [] hl.1]
+    | _ => rfl
+  | task h x c nx ihn =>
+    intro ctx loc hl
+    simp only [iterEnabledLiteral] at hl
+    simp only [proc, Out.seq_ev, Events.or_iterDrop, ihn ctx loc hl, Bool.or_false]
+    cases procHdr ctx loc h x <;> rfl
+  | call h x c nx ihn =>
+    intro ctx loc hl
+    simp only [iterEnabledLiteral] at hl
+    simp only [proc, Out.seq_ev, Events.or_iterDrop, ihn ctx loc hl, Bool.or_false]
+    cases procHdr ctx loc h x <;> rfl
+  | iter r v b nx ihb ihn =>
+    intro ctx loc hl
+    simp only [iterEnabledLiteral, Bool.and_eq_true] at hl
+    simp only [proc, Out.seq_ev, Events.or_iterDrop, ihn ctx loc hl.2, Bool.or_false]
+    cases evalRange ctx.lookRange r with
+    | none => rfl
+    | some vals =>
+      dsimp only
+      cases hre : rawEnabled b with
+      | true =>
+        simp only [iterOut, if_true]
+        induction vals with
+        | nil => rfl
+        | cons a as iha => simp [iha, ihb ctx _ hl.1.2]
+      | false =>
+        have hempty : vals.foldr (fun v' acc => (proc ctx [(v, v')] b).seq acc) Out.empty = Out.empty := by
+          induction vals with
+          | nil => rfl
+          | cons a as iha => rw [List.foldr_cons, iha, body_disabled ctx _ b hl.1.1 hre]; rfl
+        rw [hempty]; rfl
+
 end Load
